@@ -98,6 +98,8 @@ def spelling(draw, lang, nsid, partial, image=False):
         return draw(st.sampled_from(["", " ", "_"])) + s + draw(st.sampled_from(["", " ", "_"])), 0
     if image and draw(st.integers(0, 4)) == 0:
         return p, 6  # bare name, default namespace 6
+    if not image and ":" not in p and draw(st.integers(0, 3)) == 0:
+        return p, nsid  # bare name resolved through the default namespace, as {{Infobox}} is
     nm = draw(st.sampled_from(sorted(set(names[nsid]))))
     nm = "".join(draw(st.sampled_from([c, c.upper(), c.lower()])) if len(c.upper()) == 1 and len(c.lower()) == 1 and c.upper().lower() == c.lower() else c for c in nm)
     nm = nm.replace(" ", draw(st.sampled_from([" ", "_"])))
@@ -142,6 +144,18 @@ def cases(draw):
                 revs.append(dict(revid=revid[0], text=draw(page_text()), how=draw(st.sampled_from(["pages", "pages", "expanded"]))))
         pages.append(dict(title=full, ns=ns, partial=partial, revs=revs,
                           spellings=[list(draw(spelling(lang, ns, partial))) for _ in range(3)]))
+    # namesakes: the same name in another namespace (article 'Infobox' next to 'Template:Infobox')
+    for p0 in list(pages):
+        if draw(st.integers(0, 3)) == 0 and ":" not in p0["partial"]:
+            ns2 = draw(st.sampled_from([n for n in (0, 10, 14) if n != p0["ns"]]))
+            full2 = h.splitname(p0["partial"], ns2)[2]
+            nsid2, partial2, full3 = h.splitname(full2, 0)
+            if nsid2 == ns2 and full3 == full2 and full2.lower() not in used and partial2 == p0["partial"]:
+                used.add(full2.lower())
+                revid[0] += draw(st.integers(1, 50))
+                pages.append(dict(title=full2, ns=ns2, partial=partial2, namesake=True,
+                                  revs=[dict(revid=revid[0], text=draw(page_text()), how="pages")],
+                                  spellings=[list(draw(spelling(lang, ns2, partial2))) for _ in range(3)]))
     # write history: one entry per (page index, revision index), in a drawn order, with optional duplicates
     writes = [(i, j) for i, p in enumerate(pages) for j in range(len(p["revs"]))]
     writes = list(draw(st.permutations(writes)))
@@ -354,6 +368,8 @@ def run_shard(ctx):
             labels.append("image:non-ascii")
         if any(im.get("twin") and not im.get("compat_twin") for im in case["images"]):
             labels.append("image:escape-twin")
+        if any(p.get("namesake") for p in case["pages"]):
+            labels.append("namesake-in-other-namespace")
         if any(im.get("compat_twin") for im in case["images"]):
             labels.append("image:compat-twin")
         ids = [r["revid"] for p in case["pages"] for r in p["revs"] if r["revid"] is not None]
